@@ -581,11 +581,13 @@ def pair_pool():
 def range_grid(bound_values=BOUND_VALUES, steps=('absent', 1, -1), thin=1):
     pool = [E(v) for v in pair_pool()]
     k = 0
-    for lo, hi in [('absent', None)] + list(itertools.product(bound_values, bound_values)):
-        for incl in INCL:
-            for step in steps:
+    for ib, (lo, hi) in enumerate([('absent', None)] + list(itertools.product(bound_values, bound_values))):
+        for ii, incl in enumerate(INCL):
+            for ist, step in enumerate(steps):
                 k += 1
-                if k % thin:
+                # thinning must not line up with any one loop: a diagonal keeps every step / inclusivity
+                # for a third of the bounds each (k % thin would keep a single step value)
+                if (ib + ii + ist) % thin:
                     continue
                 args = {}
                 l = h = None
@@ -676,7 +678,7 @@ def list_cases():
                 k += 1
                 if not is_inst and it is None:
                     continue
-                if k % 2 and mn not in ('absent', 0):
+                if ((k - 1) // 2) % 2 and mn not in ('absent', 0):      # every other (bounds, item type) pair, both is_instance
                     continue
                 args = {}
                 if mn == 'none':
@@ -799,7 +801,7 @@ def date_cases():
         for lo, hi in bsets:
             for incl in INCL:
                 k += 1
-                if k % 2 and incl not in ((True, True), (False, False)):
+                if ((k - 1) // 4) % 2 and incl not in ((True, True), (False, False)):   # every other bounds pair
                     continue
                 args = {}
                 if lo != 'absent':
@@ -968,6 +970,8 @@ def directed():
     rng = [E(v) for v in [None, (0, 1), (1, 0), (0.5, 0.5), (NAN, 0.5), (0.5, NAN), (0, 2), (-1, 1), (0,), (0, 1, 2), [0, 1], (0, 'a'), 5]]
     yield mk('Range', A(default=E((0, 1)), bounds=[E(0), E(1)]), rng)
     yield mk('Range', A(bounds=[E(0), E(1)], inclusive_bounds=[False, False]), rng)
+    yield mk('Range', A(bounds=[E(0), None]), rng)                                        # one-sided: NaN must fail the bounded side
+    yield mk('Range', A(bounds=[None, E(1)], inclusive_bounds=[True, False]), rng)
     yield mk('Range', A(default=E((0, 1)), step=E(1)), rng)
     yield mk('Range', A(default=E((1, 0)), step=E(-1)), rng)
     yield mk('Range', A(default=E((0, 1)), step=E(0)), rng)                               # step 0: constructor refuses
